@@ -34,7 +34,7 @@ SAFETY = [0.0, 0.125, 0.25, 0.1]
 # first refinement_postprocessing, so the component grids of the restarted run differ from those of a fresh object.  The
 # clauses of C03 still hold on those grids; the model comparison of the grids before the first refine() of a restarted run is
 # switched on by the post-fix package.
-RESTART_OBSERVE_BEFORE_FIRST_REFINE = os.environ.get("VERIF_DIMWISE_RESTART_STRICT", "0") == "1"
+RESTART_OBSERVE_BEFORE_FIRST_REFINE = os.environ.get("VERIF_DIMWISE_RESTART_STRICT", "1") == "1"
 
 _classes = {}
 
